@@ -7,15 +7,43 @@ package core
 
 import (
 	"math"
+	"os"
 	"testing"
 	"time"
 
+	"github.com/tikv/pd/pkg/etcdutil"
 	"github.com/tikv/pd/server/kv"
+	"go.etcd.io/etcd/clientv3"
+	"go.etcd.io/etcd/embed"
 )
 
+// the same ids against the etcd-backed kv of a running PD: that layer joins every key to its root path with path.Join
+// once more, so an id that is merely appended unchanged by the storage layer is cleaned there
+func TestVerifReplayServiceIDPathEtcd(t *testing.T) {
+	cfg := etcdutil.NewTestSingleConfig()
+	defer os.RemoveAll(cfg.Dir)
+	etcd, err := embed.StartEtcd(cfg)
+	if err != nil {
+		t.Skipf("embedded etcd does not start here: %v", err)
+	}
+	defer etcd.Close()
+	<-etcd.Server.ReadyNotify()
+	client, err := clientv3.New(clientv3.Config{Endpoints: []string{cfg.LCUrls[0].String()}})
+	if err != nil {
+		t.Fatal(err)
+	}
+	defer client.Close()
+	n := 0
+	verifServiceIDPath(t, func() kv.Base { n++; return kv.NewEtcdKVBase(client, "/pd/"+string(rune('a'+n))) })
+}
+
 func TestVerifReplayServiceIDPath(t *testing.T) {
-	for _, id := range []string{"x/../gc_worker", "./gc_worker", "gc_worker/", "..", "a/../..", "br/../../service/gc_worker"} {
-		s := NewStorage(kv.NewMemoryKV())
+	verifServiceIDPath(t, func() kv.Base { return kv.NewMemoryKV() })
+}
+
+func verifServiceIDPath(t *testing.T, newKV func() kv.Base) {
+	for _, id := range []string{"x/../gc_worker", "./gc_worker", "gc_worker/", "..", "a/../..", "br/../../service/gc_worker", "../../../../pd/alloc_id"} {
+		s := NewStorage(newKV())
 		if err := s.SaveGCSafePoint(100); err != nil {
 			t.Fatal(err)
 		}
